@@ -63,7 +63,8 @@ def write_evidence(pid, mod, tier, seed, col, extra, wall, n_viol):
     }
     try:
         import jsonschema
-        schema = json.load(open(EVIDENCE_SCHEMA)) if os.path.exists(EVIDENCE_SCHEMA) else None
+        sp = EVIDENCE_SCHEMA if os.path.exists(EVIDENCE_SCHEMA) else os.path.join(VERIF, "schemas", "EVIDENCE.schema.json")
+        schema = json.load(open(sp)) if os.path.exists(sp) else None
         if schema is not None:
             jsonschema.validate(ev, schema)
     except ImportError:
